@@ -117,12 +117,15 @@ func regionRaw(r *Run, n int) {
 //     the escaper sees the value's text, whatever its Go type).
 func escRuns(r *Run, letters []string, mods []string, regionKind string) {
 	var cases []*RCase
-	ins := []string{"a-b", `x"y\`, "<&>'", "é z/?=%", "-15"}
+	ins := []string{"a-b", `x"y\`, "<&>'", "é z/?=%", "-15", "hello wide world"}
 	for li, l := range letters {
-		for ni, n := range []int{10, 11, 12, 21} {
+		for ni, n := range []int{2, 3, 10, 11, 12, 21} {
 			in := ins[(li+ni)%len(ins)]
 			if n > 12 {
 				in = "a-b" // the output doubles with every pass on an escapable byte: keep the long one short
+			}
+			if n < 10 {
+				in = "hello wide world" // blanks only: a pass that does not change the LENGTH still changes the value
 			}
 			d := strings.Repeat(l, n)
 			c := &RCase{Tpls: []TplDef{{Key: "main", Src: "{%" + d + "= v %}", KeepFmt: true}}, Meta: map[string]any{"directive": d, "input": in}}
@@ -197,6 +200,47 @@ func escRuns(r *Run, letters []string, mods []string, regionKind string) {
 			r.Dist["letter-in-region"]++
 		}
 	}
+	// a ctx variable made by the property's modifiers keeps its value while OTHER tags use the same modifiers / letters
+	for _, m := range mods {
+		for _, l := range letters {
+			src := `{% ctx e = v|` + m + ` %}{%` + l + `= w %}|{%= w|` + m + ` %}|[{%= e %}]{%` + l + l + `= w %}[{%= e %}]`
+			c := &RCase{Tpls: []TplDef{{Key: "main", Src: src, KeepFmt: true}}, Meta: map[string]any{"ctx-var-then-other-tags": src}}
+			c.Ops = []SOp{{Kind: "static", Name: "v", Val: `a b&c<d>"e'/f?g=%`}, {Kind: "static", Name: "w", Val: `x "y" <z>`}, {Kind: "render", Key: "main"}, {Kind: "render", Key: "main"}}
+			cases = append(cases, c)
+			r.Dist["ctx-var-then-other-tags"]++
+		}
+	}
+	// an end tag of a bound type that is NOT open (a stray or doubled end tag) closes nothing; an include inside the
+	// region whose template prints raw-marked values, opens and leaves open / closes bound tags of its own
+	if regionKind != "" {
+		open_, close_ := "{% "+regionKind+" %}", "{% end"+regionKind+" %}"
+		var strays []string
+		for _, k := range []string{"jsonquote", "htmlescape", "urlencode"} {
+			if k != regionKind {
+				strays = append(strays, "{% end"+k+" %}")
+			}
+		}
+		for _, stray := range append(strays, strays[0]+strays[1], close_+close_) {
+			src := open_ + `<a "1">` + stray + `<b '2'>{%= v %}` + close_ + `|` + open_ + `{% jsonquote %}x` + stray + `"{%= v %}"{% endjsonquote %}` + close_ + `{%= v %}`
+			if stray == close_+close_ {
+				src = open_ + `<a>` + close_ + close_ + `<b>{%= v %}|` + open_ + `"{%= v %}"` + close_
+			}
+			c := &RCase{Tpls: []TplDef{{Key: "main", Src: src, KeepFmt: true}}, Meta: map[string]any{"stray-end-tag": stray}}
+			c.Ops = []SOp{{Kind: "static", Name: "v", Val: `a b&c<d>"e'/f`}, {Kind: "render", Key: "main"}, {Kind: "render", Key: "main"}}
+			cases = append(cases, c)
+			r.Dist["stray-end-tag"]++
+		}
+		for _, sub := range []string{`s"{%= v|raw %}"<{%= v %}>t`, `s{%= v|raw pfx <p> sfx </p> %}t`, `s{% htmlescape %}<{%= v|raw %}>`, `s` + close_ + `<{%= v %}>`, `s{% jsonquote %}"q"{% endjsonquote %}{%= v|raw %}`} {
+			src := open_ + `[{% include escsub %}]<{%= v %}>` + close_ + `|{%= v %}`
+			c := &RCase{Tpls: []TplDef{{Key: "escsub", Src: sub, KeepFmt: true}, {Key: "main", Src: src, KeepFmt: true}}, Meta: map[string]any{"include-in-region": sub}}
+			c.Ops = []SOp{{Kind: "static", Name: "v", Val: `a b&c<d>"e'/f`}, {Kind: "render", Key: "main"}, {Kind: "render", Key: "main"}}
+			cases = append(cases, c)
+			r.Dist["include-in-region"]++
+		}
+	}
+	// escape letters in front of the call form of a modifier (no variable): the letters apply to the modifier's result
+	// exactly as to a variable holding it (a relation on the real engine alone)
+	callFormLetters(r, letters)
 	// the same modifiers in the pipeline of a ctx tag (a separate copy of the print tag's pipeline), after modifiers and
 	// tags that leave a numeric first argument behind
 	for _, m := range mods {
@@ -252,4 +296,49 @@ func escRuns(r *Run, letters []string, mods []string, regionKind string) {
 		}
 	}
 	runSessions(r, cases, outputDiffers)
+}
+
+// callFormLetters: {%<letters>= mod(args) %} must print what {%<letters>= res %} prints for a variable res holding the
+// output of {%= mod(args) %}.
+func callFormLetters(r *Run, letters []string) {
+	var runs []string
+	for _, l := range letters {
+		runs = append(runs, l, l+l)
+	}
+	if len(letters) >= 2 {
+		runs = append(runs, letters[0]+letters[1], letters[1]+letters[0])
+	}
+	for _, call := range []string{`vcat(v)`, `vcat("a b<c>&'d'")`, `vcat(v, {k: w})`, `default(v)`, `default("</script>'")`, `math::abs(n)`} {
+		kc, err, pan := regTpl("{%= "+call+" %}", true)
+		if err != nil || pan != "" {
+			r.Violate("call-form parse "+call, "the call form of a modifier is rejected by Parse", map[string]any{"source": "{%= " + call + " %}", "error": fmt.Sprint(err), "panic": pan})
+			continue
+		}
+		mk := func() *dyntpl.Ctx {
+			c := dyntpl.NewCtx()
+			c.SetString("v", `x<y>&"z" /?'`)
+			c.SetStatic("w", int64(-7))
+			c.SetStatic("n", -5.5)
+			return c
+		}
+		plain := renderSafe(kc, mk())
+		for _, run := range runs {
+			kl, err1, pan1 := regTpl("{%"+run+"= "+call+" %}", true)
+			kv, err2, pan2 := regTpl("{%"+run+"= res %}", true)
+			if err1 != nil || err2 != nil || pan1 != "" || pan2 != "" {
+				r.Violate("call-form parse "+run+" "+call, "escape letters with the call form of a modifier are rejected by Parse", map[string]any{"source": "{%" + run + "= " + call + " %}"})
+				continue
+			}
+			got := renderSafe(kl, mk())
+			cv := mk()
+			cv.SetBytes("res", plain.Out)
+			want := renderSafe(kv, cv)
+			r.Count("call-form:"+run+":"+call, true)
+			r.Dist["call-form-letters"]++
+			if got.Panic != "" || got.ErrStr() != want.ErrStr() || !bytes.Equal(got.Out, want.Out) {
+				r.Violate("call-form "+run+" "+call, "escape letters in front of the call form of a modifier do not escape the modifier's result",
+					map[string]any{"source": "{%" + run + "= " + call + " %}", "output": string(got.Out), "modifier_result": string(plain.Out), "letters_on_that_result": string(want.Out), "error": got.ErrStr()})
+			}
+		}
+	}
 }
